@@ -253,6 +253,10 @@ def _nonempty_guard(fn: ast.AST, test: ast.AST):
     if not isinstance(flag, ast.Name):
         return False, "not an emptiness test"
     sets = [s_ for s_ in walk_function(fn) if isinstance(s_, ast.Assign) and norm(s_.targets[0]) == flag.id]
+    if len(sets) == 1 and not isinstance(sets[0].value, ast.Constant):
+        # a named test:  has_labelled = any(not i.is_empty for i in ...)
+        ok_, why_ = _nonempty_guard(fn, sets[0].value)
+        return (ok_ and not neg), (why_ if not neg else "negated emptiness test")
     if len(sets) != 2 or not all(isinstance(s_.value, ast.Constant) and isinstance(s_.value.value, bool) for s_ in sets):
         return False, f"flag `{flag.id}` is not a two-valued emptiness flag"
     init = [s_ for s_ in sets if not any(isinstance(a, ast.If) for a in ancestors(s_) if astq.in_body_of(s_, a) or astq.in_body_of(s_, a, "orelse"))]
